@@ -54,6 +54,7 @@ def texts(tier, seed):
         for k in range(len(toks)):
             out.append(" ".join(toks[:k] + [rnd.choice(VOCAB)] + toks[k + 1:]))   # one token replaced
     out += config_texts(rnd)
+    out += port_texts()
     out += ["", " ", "\n", "\n\n  \n", "permit " * 2000, "1 " * 3000 + "permit ip any any", "permit ip any any " + "log " * 5000, "a" * 100000,
             "ip access-list extended A\n" + " permit ip any any\n" * 3000, "remark " + "x" * 200, "0.0.0.0 " * 50, "eq " + "1 " * 5000]
     return out
@@ -73,6 +74,28 @@ def source_literals(mods=("config_parser", "functions"), cap=60):
             if isinstance(n, ast.Constant) and isinstance(n.value, str) and 0 < len(n.value) <= 24 and "\n" not in n.value and not n.value.startswith("\\"):
                 out.add(n.value.strip())
     return sorted(x for x in out if x and " " not in x.strip() or x in ("ip access-list", "object-group network"))[:cap]
+
+
+def port_texts():
+    """every port number and port keyword of the library's own tables, on each side of an entry (numbers render as keywords, which must be accepted again)"""
+    import ast
+    from pyvc import loader
+    words = set()
+    try:
+        tree = ast.parse(open(os.path.join(loader.REPO, "cisco_acl", "port_name.py")).read())
+    except OSError:
+        return []
+    for n in ast.walk(tree):
+        if isinstance(n, ast.Dict):
+            for k, v in zip(n.keys, n.values):
+                for c in (k, v):
+                    if isinstance(c, ast.Constant) and isinstance(c.value, (int, str)) and not isinstance(c.value, bool) and str(c.value).strip():
+                        words.add(str(c.value).strip())
+    out = []
+    for w in sorted(words):
+        out += [f"permit tcp any any eq {w}", f"permit udp any any eq {w}", f"permit tcp any eq {w} any", f"permit udp any eq {w} any eq {w}",
+                f"permit tcp any any eq 1 {w}", f"eq {w}", f"permit tcp any any range 1 {w}", f"permit tcp any any neq {w} log"]
+    return out
 
 
 def config_texts(rnd):
